@@ -15,6 +15,14 @@ CHECKS = {
              "stream is parsed back by the same TLA+ parser inside TLC; canonical trees must agree. Exhaustive within the bound, "
              "which is the level the property (a product over operator triples) needs.",
         ref="6/C06", technique="TLA+ reference parser (PT_Expr) + TLC enumeration of trees + trace judging of real renderings (J_C06)"),
+    "C05": dict(
+        text="TLC proves on the specification that the intended string/identifier encoders round-trip through the reference lexer of every "
+             "dialect, stand-alone and embedded, for all strings over a 20-class adversarial alphabet up to length 2 (quick) / 3 (thorough). "
+             "Then every string over the alphabet (plus hot triples, seeded Unicode strings and 20 non-string values) is inlined at 22 value "
+             "positions x 6 dialects through the real builders; TLC itself lexes the emitted characters (PT_Lex!Lex) and requires the benign "
+             "rendering's token list with the marker replaced by exactly one literal decoding to the value. Exhaustive over alphabet x "
+             "position x dialect within the length bound.",
+        ref="6/C05", technique="TLA+ reference lexer + encoder round-trip model-checked (PT_Lex, MC_Lex); TLC lexes real statement text (J_Lit)"),
     "C18": dict(
         text="TLC proves on the specification that the intended encoder round-trips through the field-layout decoder for every 7-tuple "
              "over the digit-pattern set (either sign of the leading component, quarters, weeks, both templates); the same tuples plus "
